@@ -164,6 +164,8 @@ def build(case: Dict[str, Any]) -> Dict[str, Any]:
                                     upgrade=case.get("ws_upgrade", "websocket"))
         rest = b"".join(message_frames("text", case["ws_msg"].encode("utf-8"), []))
         out.update({"opening": opening, "rest": rest, "proto": "ws", "requests": [first]})
+    if "negotiated" in case and out["tls"]:
+        out["alpn"] = case["negotiated"]  # what a real TLS handshake agreed on (tls_alpn part)
     pr = [{"path": f"/p{j}", "body_len": [0, 9][j % 2], "seed": 40 + j}
           for j in range(case.get("prior", 0))]
     out["prior_requests"] = pr
@@ -361,6 +363,98 @@ def enumerate_splits(tier: str) -> Any:
                     yield c
 
 
+# --------------------------------------------------------------------------- real TLS for ALPN
+ALPN_NAMES = ["h2", "http/1.1", "spdy/3", "acme-tls/1"]
+
+
+@st.composite
+def tls_alpn_case(draw: Any) -> Dict[str, Any]:
+    base = draw(case_strategy())
+    base["prior"] = 0
+    return {
+        # Config.alpn_protocols (default: h2 first) and what the client offers, in its order
+        "server_protocols": draw(st.sampled_from([["h2", "http/1.1"], ["h2", "http/1.1"],
+                                                  ["http/1.1", "h2"], ["http/1.1"], ["h2"]])),
+        "offer": draw(st.one_of(st.none(), st.lists(st.sampled_from(ALPN_NAMES), min_size=1,
+                                                     max_size=4, unique=True))),
+        "base": base, "sched": base["sched"],
+    }
+
+
+def negotiate_alpn(server_protocols: List[str], offer: Optional[List[str]]) -> Optional[str]:
+    """A TLS handshake in memory between hypercorn's own SSLContext (Config.create_ssl_context
+    with the repository's test certificate) and a client offering `offer`."""
+    import os
+    import ssl
+
+    from hypercorn.config import Config
+
+    import hypercorn
+    root = os.path.dirname(os.path.dirname(os.path.dirname(os.path.abspath(hypercorn.__file__))))
+    config = Config()
+    config.certfile = os.path.join(root, "tests", "assets", "cert.pem")
+    config.keyfile = os.path.join(root, "tests", "assets", "key.pem")
+    config.alpn_protocols = list(server_protocols)
+    sctx = config.create_ssl_context()
+    if sctx is None:
+        raise Violation("no_ssl_context", "certfile and keyfile set, create_ssl_context() is None")
+    cctx = ssl.create_default_context()
+    cctx.check_hostname = False
+    cctx.verify_mode = ssl.CERT_NONE
+    if offer is not None:
+        cctx.set_alpn_protocols(list(offer))
+    s_in, s_out, c_in, c_out = (ssl.MemoryBIO() for _ in range(4))
+    server = sctx.wrap_bio(s_in, s_out, server_side=True)
+    client = cctx.wrap_bio(c_in, c_out, server_side=False)
+    done = {"c": False, "s": False}
+    for _ in range(30):
+        for who, obj in (("c", client), ("s", server)):
+            if not done[who]:
+                try:
+                    obj.do_handshake()
+                    done[who] = True
+                except (ssl.SSLWantReadError, ssl.SSLWantWriteError):
+                    pass
+                except ssl.SSLError as e:
+                    raise Violation("tls_handshake_failed", f"{e!r} (server protocols "
+                                    f"{server_protocols}, client offers {offer})")
+            data = c_out.read()
+            if data:
+                s_in.write(data)
+            data = s_out.read()
+            if data:
+                c_in.write(data)
+        if all(done.values()):
+            break
+    else:
+        raise Violation("tls_handshake_failed", "no agreement after 30 rounds")
+    if server.version() not in ("TLSv1.2", "TLSv1.3"):
+        raise Violation("tls_version", f"{server.version()} (RFC 7540 9.2 wants >= 1.2)")
+    if server.selected_alpn_protocol() != client.selected_alpn_protocol():
+        raise Violation("alpn_sides_disagree", f"server {server.selected_alpn_protocol()!r}, "
+                        f"client {client.selected_alpn_protocol()!r}")
+    return server.selected_alpn_protocol()
+
+
+def run_tls_alpn(case: Dict[str, Any]) -> CaseInfo:
+    got = negotiate_alpn(case["server_protocols"], case["offer"])
+    offer = case["offer"] or []
+    want = next((p_ for p_ in case["server_protocols"] if p_ in offer), None)
+    if got != want:
+        raise Violation("alpn_selection", f"server protocols {case['server_protocols']}, client "
+                        f"offers {case['offer']}: agreed on {got!r}, expected {want!r}")
+    # the connection is then spoken the way the agreement says, over the simulated transport
+    inner = dict(case["base"])
+    inner["kind"] = "alpn_h2" if got == "h2" else "alpn_h1_plain"
+    inner["negotiated"] = got
+    if inner["kind"] == "alpn_h2":
+        inner["first"] = dict(inner["first"])
+    run_case(inner)
+    return CaseInfo(True, [f"agreed={got}", f"server_first={case['server_protocols'][0]}",
+                           "offer=" + ("none" if case["offer"] is None else str(len(offer)))],
+                    evals=5)
+
+
 def parts() -> List[Part]:
     return [
         Part("splits", run_case, enumerate=enumerate_splits,
@@ -368,4 +462,8 @@ def parts() -> List[Part]:
                   "combinations, through 40 bytes past the opening"),
         Part("random", run_case, strategy=case_strategy, quick=600, thorough=30000,
              rule="random openings, follow-up requests with bodies, k-way splits and delays"),
+        Part("tls_alpn", run_tls_alpn, strategy=tls_alpn_case, quick=200, thorough=6000,
+             rule="a real TLS handshake (memory BIOs) between Config.create_ssl_context() and a "
+                  "client offering generated ALPN lists; the agreed protocol is then spoken "
+                  "over the simulated transport"),
     ]
